@@ -26,12 +26,26 @@ copies ~40 pure-Python stdlib modules into the scratch directory under a new
 name, imports them plain and instrumented with all three metrics, compares the
 public namespace and runs a few smoke calls in both.
 
-Fingerprint: ``C01|<smallest metric subset showing it, or "any">|<construct>|
-<value classes>|<signature>``.  ``construct`` is the tracer / seeding callback in
-which the deviation happens (found by re-running the violating call with
-pass-through wrappers around the callbacks: ``LT``, ``IN``, ``BOOL``,
-``attr-access`` ...) or, when it happens in the instrumented frame itself, the
-predicate family of the program (``startswith``, ``LT+BOOL`` ...).
+All instrumented work runs in a forked child of the (fresh) shard process:
+instrumented code that crashes the interpreter (SIGSEGV) or never returns (CPU
+budget per step, SIGXCPU) is a violation ``interpreter-crash:<signal>`` / ``hang``
+of the metric subset and input the child was working on, and the work item is
+repeated without that subset and its supersets.
+
+Fingerprint: ``C01|<smallest metric subset showing it, "any" = all eight,
+"seeding-only" = already with no coverage metric>|<construct>|<value classes>|
+<signature>``.  ``construct`` is the tracer / seeding callback in which the
+deviation happens (found by re-running the violating call with pass-through
+wrappers around the callbacks, after all compared calls of the program: ``LT``,
+``IN``, ``BOOL``, ``attr-access`` ...; ``...-runs-user-code`` when code of the
+module under test ran inside the callback) or, when it happens in the
+instrumented frame itself, the distinctive feature / predicate family of the
+program (``startswith``, ``SLICE``, ``WITH``, ``LT+BOOL`` ...).  Value classes are
+``any``/``most`` when (nearly) every input pair of the program shows the deviation.
+Signatures: ``return-differs``, ``exception-differs:<plain>-><instr>``,
+``raises-only-instrumented:<Exc>``, ``stdout-differs``, ``state-differs``,
+``extra-operator:<dunder>``, ``missing-operator:<dunder>``, ``iterator-consumed``,
+``instrumentation-raises:<Exc>``, ``interpreter-crash:<signal>``, ``hang``.
 """
 
 from __future__ import annotations
